@@ -60,6 +60,17 @@ Proof. exact parse_shape. Qed.
 Print Assumptions C15_parse_shape.
 (* ... whose parts are unsigned decimal numbers: an accepted version has non-negative components and every
    part starts with a digit (no sign).  Before repository commit 43195e2 "1.-5" and "+1.+5" were accepted. *)
+(* a version given on the command line never denotes "no constraint": only the empty request yields major 0, so a value such as
+   0.7 cannot be taken for the latest version (repair of the parser; the routine before it is refuted below) *)
+Theorem C15_named_version_is_a_constraint : forall s v, parse_go_version s = Some v -> fst v = 0 ->
+  trim_prefix "go" s = "" /\ v = (0, 0).
+Proof. exact parse_major_zero_only_unset. Qed.
+Print Assumptions C15_named_version_is_a_constraint.
+Theorem C15_zero_major_prefix_refuted :
+  parse_go_version_zero_major_prefix "0.7" = Some (0, 7) /\ parse_go_version "0.7" = None /\ parse_go_version "go0.0" = None.
+Proof. exact parse_zero_major_prefix_refuted. Qed.
+Print Assumptions C15_zero_major_prefix_refuted.
+
 Theorem C15_parse_nonneg : forall s v, parse_go_version s = Some v -> 0 <= fst v /\ 0 <= snd v.
 Proof. exact parse_nonneg. Qed.
 Print Assumptions C15_parse_nonneg.
